@@ -32,7 +32,9 @@ func LeftTrim(p parsley.Parser, wsMode WsMode) parser.Func {
 
 		if err != nil {
 			if wsErr != nil {
-				if err.Pos() > pos {
+				// a result that came together with an error (e.g. from Optional) does not make
+				// whitespaces acceptable which the mode forbids
+				if res != nil || err.Pos() > pos {
 					return nil, data.EmptyIntSet, wsErr
 				}
 
